@@ -165,6 +165,8 @@ func runC02(c *Ctx) {
 	}
 	// (b) leaf: a return that allocates the new node must raise the flag when the budget is exhausted
 	leafOK, leafSeen := false, false
+	var leafT int64
+	haveLeafT := false
 	var leafPos token.Pos
 	allInstrs(ins, func(in ssa.Instruction) {
 		ret, ok := in.(*ssa.Return)
@@ -191,6 +193,11 @@ func runC02(c *Ctx) {
 				if cm.X == ssa.Value(bp) {
 					if k2, ok := constInt(cm.Y); ok && ((cm.Op == token.LSS && (k2 == 0 || k2 == 1)) || (cm.Op == token.LEQ && (k2 == -1 || k2 == 0))) {
 						leafOK = true
+						// flagged iff budget ≤ leafT
+						leafT, haveLeafT = k2, true
+						if cm.Op == token.LSS {
+							leafT = k2 - 1
+						}
 					}
 				}
 			}
@@ -407,6 +414,16 @@ func runC02(c *Ctx) {
 				// height > limit(size)  ⇔  not (height <= limit)
 				if (cm.Y == v && (cm.Op == token.GTR || cm.Op == token.GEQ)) || (cm.X == v && (cm.Op == token.LSS || cm.Op == token.LEQ)) {
 					limTest = true
+					// strictness: rebuilt iff height − limit ≥ g.  A leaf at depth d below the root is flagged iff
+					// its budget L − d ≤ leafT, i.e. d − L ≥ −leafT; for the root of the tree (height d) the two
+					// tests speak about the same quantity and must agree: g = −leafT
+					g := int64(1)
+					if cm.Op == token.GEQ || cm.Op == token.LEQ {
+						g = 0
+					}
+					if haveLeafT && g != -leafT {
+						probs = append(probs, fmt.Sprintf("a new leaf is flagged as too deep when depth − limit ≥ %d, but a subtree counts as the scapegoat when height − limit ≥ %d: with the weaker test the first small subtree around the new leaf is rebuilt (to the same height) and the search for the real scapegoat stops there", -leafT, g))
+					}
 					// the limit is taken for the size the subtree is rebuilt with: when both are
 					// sums over the same terms, their constant parts must agree
 					if len(call.Call.Args) == 1 && len(rw.Call.Args) > 1 {
